@@ -40,6 +40,9 @@ HOST_CONFIGS = [
     # the host removes library functions by binding their names to null: the name stays null, the call is undefined
     [{'name': 'gv', 'val': NUM(0)}, {'name': 'arrayLength', 'val': {'t': 'null'}}, {'name': 'arrayNew', 'val': {'t': 'null'}},
      {'name': 'systemGlobalGet', 'val': {'t': 'null'}}],
+    # the host shadows exactly ONE library name (the alphabetically first / last one): all the others are still added
+    [{'name': 'gv', 'val': NUM(0)}, {'name': 'arrayCopy', 'val': NUM(5)}],
+    [{'name': 'gv', 'val': NUM(0)}, {'name': 'urlEncodeComponent', 'val': {'t': 'str', 'v': A.cps('mine')}}],
 ]
 
 
@@ -191,7 +194,7 @@ def run(ctx, replay=None):
     F.judge(ctx, 'Trace_Core', cases, c08.canaries, invariants=c08.INVS, describe=c03.describe,
             key_fields=('kind', 'model', 'expr', 'globals', 'locals'), nontrivial=lambda c: True)
     ctx.notes['exhaustive_family'] = f'{exhaustive} (statement list <= {n} over the {len(alpha)}-symbol ScopeAlphabet) x host configurations'
-    return F.finish(ctx, rule='statement lists over ScopeAlphabet x 5 host configurations (exhaustive to length n, sampled beyond), '
+    return F.finish(ctx, rule='statement lists over ScopeAlphabet x 7 host configurations (exhaustive to length n, sampled beyond), '
                     'random programs with up to 4 functions / partials / callbacks / systemGlobalGet/Set, expression-mode '
                     'shadowing cases with locals; every run validated against BareCore incl. the final globals object',
                     exhaustive=True)
